@@ -8,3 +8,6 @@ for id in "$@"; do
   echo "== $id rc=$rc"; echo "$out" | grep -v KNOWN-FINDING | cut -c1-220
 done
 cd /repo && git checkout -- . && git status --short | grep -v '^??' | head
+# evidence files were overwritten by the runs against the changed tree: regenerate them from the clean tree
+cd /verif
+for id in "$@"; do ./bin/check $id >/dev/null 2>&1 || echo "!! $id does not pass on the clean tree (restoring evidence)"; done
